@@ -786,6 +786,49 @@ fn op_just(c: &Value) -> Value {
     json!({"vnext": vnext, "bnext": bnext, "enext": enext, "read": read, "sel": sel})
 }
 
+fn mk_msg(kind: &str, v: u64) -> validator::ConsensusMsg {
+    use validator::v2 as m;
+    let sched: validator::Schedule = ProtoFmt::read(&valid_schedule_proto()).unwrap();
+    let header = m::BlockHeader {
+        number: validator::BlockNumber(7),
+        payload: validator::Payload(vec![]).hash(),
+    };
+    let c = match kind {
+        "commit" => m::ChonkyMsg::ReplicaCommit(m::ReplicaCommit { view: view(v), proposal: header }),
+        "timeout" => m::ChonkyMsg::ReplicaTimeout(m::ReplicaTimeout { view: view(v), high_vote: None, high_qc: None }),
+        "newview" => m::ChonkyMsg::ReplicaNewView(m::ReplicaNewView {
+            justification: m::ProposalJustification::Timeout(m::TimeoutQC::new(view(v))),
+        }),
+        _ => m::ChonkyMsg::LeaderProposal(m::LeaderProposal {
+            proposal_payload: None,
+            justification: m::ProposalJustification::Commit(m::CommitQC::new(
+                m::ReplicaCommit { view: view(v), proposal: header },
+                &sched,
+            )),
+        }),
+    };
+    validator::ConsensusMsg::V2(c)
+}
+
+/// inbound_selection_function on two signed messages built in memory (no decoder in between).
+fn op_sel(c: &Value) -> Value {
+    let keys = vh::keys::validator_pool(4);
+    let same = c["same_key"].as_bool().unwrap();
+    let (ko, kn) = (c["ko"].as_str().unwrap().to_string(), c["kn"].as_str().unwrap().to_string());
+    let (vo, vn) = (u64_of(&c["vo"]), u64_of(&c["vn"]));
+    let old = keys[0].sign_msg(mk_msg(&ko, vo));
+    let new = keys[if same { 0 } else { 1 }].sign_msg(mk_msg(&kn, vn));
+    let mk = |m: validator::Signed<validator::ConsensusMsg>| zksync_consensus_bft::FromNetworkMessage {
+        msg: m,
+        ack: zksync_concurrency::oneshot::channel().0,
+    };
+    let (a, b) = (mk(old), mk(new));
+    match catch(std::panic::AssertUnwindSafe(|| zksync_consensus_bft::verif::inbound_selection_function(&a, &b))) {
+        Ok(r) => json!({"ok": r}),
+        Err(m) => json!({"panic": m}),
+    }
+}
+
 // ---------------------------------------------------------------------------
 // frame::recv_proto
 
@@ -1067,6 +1110,7 @@ fn main() {
             "std" => op_std(&c),
             "genesis" => op_genesis(&c),
             "just" => op_just(&c),
+            "sel" => op_sel(&c),
             "frame" => op_frame(&c),
             "mux" => op_mux(&c),
             "muxsweep" => op_muxsweep(&c),
